@@ -368,17 +368,30 @@ fn sop_ops(fc: &FC, rep: &mut Report, rng: &mut Rng) {
 }
 
 fn batch_ops(fc: &FC, rep: &mut Report, rng: &mut Rng) {
-    let len = [0usize, 1, 2, 3, 5, 16, 17, 33, 100][rng.next_u32() as usize % 9];
-    let mode = rng.next_u32() % 5;
+    batch_ops_with(fc, rep, rng, None)
+}
+
+fn batch_ops_with(fc: &FC, rep: &mut Report, rng: &mut Rng, forced: Option<(usize, u32)>) {
+    let len = forced.map(|f| f.0).unwrap_or([0usize, 1, 2, 3, 5, 16, 17, 33, 100][rng.next_u32() as usize % 9]);
+    let mode = forced.map(|f| f.1).unwrap_or(rng.next_u32() % 7);
     let v: Vec<L> = (0..len)
         .map(|i| match mode {
             0 => fc.enc(&UInt::zero()),
             1 if i % 3 == 0 => fc.enc(&UInt::zero()),
             2 if i + 1 == len || i == 0 => fc.enc(&UInt::zero()),
+            // entries that are their own inverse (1, -1), alone and next to zeros: a skip of "trivial" entries shows here
+            5 if i % 2 == 0 => fc.enc(&UInt::one()),
+            6 => match (i + rng.next_u32() as usize) % 4 {
+                0 => fc.enc(&UInt::one()),
+                1 => fc.enc(&(&fc.p - UInt::one())),
+                2 => fc.enc(&UInt::zero()),
+                _ => fc.gen(rng),
+            },
             _ => fc.gen(rng),
         })
         .collect();
-    let coeff = match rng.next_u32() % 4 {
+    let coeff = match if forced.is_some() { 4 } else { rng.next_u32() % 4 } {
+        4 => fc.enc(&(&fc.p - UInt::one())),
         0 => fc.enc(&UInt::one()),
         1 => fc.enc(&UInt::zero()),
         _ => fc.gen(rng),
@@ -387,6 +400,9 @@ fn batch_ops(fc: &FC, rep: &mut Report, rng: &mut Rng) {
     rep.class_if(zeros > 0 && zeros < len, "batch inversion: some zero entries");
     rep.class_if(zeros == len && len > 0, "batch inversion: all entries zero");
     rep.class_if(len == 0, "batch inversion: empty");
+    let ones = v.iter().filter(|x| fc.dec(x).is_one()).count();
+    let c_one = fc.dec(&coeff).is_one();
+    rep.class_if(ones > 0 && !c_one && !from_limbs(&coeff).is_zero(), "batch inversion: entries equal to one, coefficient not in {0,1}");
     rep.class_if(len == 1, "batch inversion: length 1");
     let vc = fc.dec(&coeff);
     for kind in 0..3u8 {
@@ -639,6 +655,9 @@ pub fn run_field(fc: &FC, rep: &mut Report, rng: &mut Rng, args: &Args) {
             inv_div(fc, rep, a, b);
         }
     }
+    for (len, mode) in [(1, 5), (4, 5), (17, 5), (8, 6), (33, 6)] {
+        batch_ops_with(fc, rep, rng, Some((len, mode)));
+    }
     for _ in 0..40 {
         batch_ops(fc, rep, rng);
         sop_ops(fc, rep, rng);
@@ -683,6 +702,7 @@ pub const REQUIRED_ANY: &[&str] = &[
     "batch inversion: some zero entries",
     "batch inversion: all entries zero",
     "batch inversion: empty",
+    "batch inversion: entries equal to one, coefficient not in {0,1}",
     "from_bigint: integer >= p (must be rejected)",
     "From<BigUint>: value >= p",
     "bytes_mod_order: input longer than the modulus",
